@@ -226,7 +226,10 @@ def clause2_mutation(ctx, P, T):
                     shape_ok = vt[0] == "op" and vt[1] == "and" and Q.mentions(vt, lambda x: x[0] == "op" and x[1] == "xor") and \
                         Q.mentions(vt, lambda x: x[0] == "op" and x[1] == "shl" and x[2][0] == ("const", 1) and
                                    Q.mentions(x[2][1], lambda y: Q.is_call_to(y, T.wrap.srcname) and y[2][0][0] == "op" and y[2][0][1] == "sub"))
-                    hop_cleared = bool(home) and shape_ok
+                    # ... and the word the bit is cleared in is the bucket's word as read from the table, not the copy the scan
+                    # has been shifting
+                    fresh = vt[0] == "op" and vt[1] == "and" and ("load", P.term(rm, i.a[1])) in vt[2]
+                    hop_cleared = bool(home) and shape_ok and fresh
             if i.op == "call" and i.callee and P.srcname_of(i.callee).startswith("llvm.memset"):
                 dt = P.term(rm, i.a[0])
                 if Q.mentions(dt, lambda x: x[0] == "field" and x[2] == "struct.hashtable_string" and x[3] == "value") and P.const_int(i.a[1]) == 0:
